@@ -14,11 +14,13 @@ import (
 //
 //	1  NodeMarks history        Ops = [[code,id]...]  code 0 Mark 1 Unmark 2 Test 3 Next
 //	2  PreOrder/PostOrder/Reverse/Euler on graph G from every root in Roots
+//	3  SCC(G, Flags)
 type c18Case struct {
 	Op    int      `json:"op"`
 	Ops   [][2]int `json:"ops,omitempty"`
 	G     [][]int  `json:"g,omitempty"`
 	Roots []int    `json:"roots,omitempty"`
+	Flags int      `json:"flags,omitempty"`
 }
 
 const c18MaxID = 1 << 22
@@ -35,6 +37,8 @@ func c18Run(raw []byte) (*Line, error) {
 		return c18RunMarks(&c, l)
 	case 2:
 		return c18RunTrav(&c, l)
+	case 3:
+		return c18RunSCC(&c, l)
 	}
 	return nil, fmt.Errorf("bad op %d", c.Op)
 }
@@ -533,9 +537,117 @@ func c18GenTrav(tier string, rng *rand.Rand, emit func(interface{})) {
 	}
 }
 
+// ---------------------------------------------------------------- op 3: SCC
+func c18RunSCC(c *c18Case, l *Line) (*Line, error) {
+	if err := c18ValidGraph(c.G); err != nil {
+		return nil, err
+	}
+	if c.Flags < 0 || c.Flags > 3 {
+		return nil, fmt.Errorf("bad flags")
+	}
+	orig := c18Copy(c.G)
+	g := graph.IntGraph(c.G)
+	l.c18Graph(orig).I(c.Flags)
+	var comps, outs [][]int
+	var cof []int
+	pan, _ := catch(func() {
+		s := graphalg.SCC(g, graphalg.SCCFlags(c.Flags))
+		nc := s.NumNodes()
+		for cid := 0; cid < nc; cid++ {
+			comps = append(comps, append([]int{}, s.Subnodes(cid)...))
+			outs = append(outs, append([]int{}, s.Out(cid)...))
+		}
+		if c.Flags != 0 {
+			for v := 0; v < len(c.G); v++ {
+				cof = append(cof, s.SubnodeComponent(v))
+			}
+		}
+	})
+	if pan {
+		l.I(2).I(0).I(0).I(0).I(0)
+	} else {
+		l.I(0).I(len(comps))
+		for _, x := range comps {
+			l.Is(x)
+		}
+		if c.Flags != 0 {
+			l.I(1)
+		} else {
+			l.I(0)
+		}
+		l.Is(cof)
+		l.I(len(outs))
+		for _, x := range outs {
+			l.Is(x)
+		}
+	}
+	l.B(c18Same(orig, c.G))
+	return l, nil
+}
+
+func c18GenSCC(tier string, rng *rand.Rand, emit func(interface{})) {
+	thorough := tier == "thorough"
+	k := 0
+	flags := func() int { k++; return []int{3, 3, 2, 3, 1, 3, 0, 3}[k%8] }
+	emit(c18Case{Op: 3, G: [][]int{}, Flags: 3})
+	emit(c18Case{Op: 3, G: [][]int{}, Flags: 0})
+	for n := 1; n <= 4; n++ {
+		for mask := uint64(0); mask < 1<<uint(n*n); mask++ {
+			g := c18MaskGraph(n, mask)
+			emit(c18Case{Op: 3, G: g, Flags: flags()})
+			if n < 4 || rng.Intn(8) == 0 || thorough {
+				emit(c18Case{Op: 3, G: c18Variant(rng, g), Flags: flags()})
+			}
+		}
+	}
+	if thorough {
+		for mask := uint64(0); mask < 1<<20; mask++ {
+			var full uint64
+			b := 0
+			for i := 0; i < 5; i++ {
+				for j := 0; j < 5; j++ {
+					if i == j {
+						if rng.Intn(4) == 0 {
+							full |= 1 << uint(i*5+j)
+						}
+						continue
+					}
+					if mask>>uint(b)&1 == 1 {
+						full |= 1 << uint(i*5+j)
+					}
+					b++
+				}
+			}
+			emit(c18Case{Op: 3, G: c18MaskGraph(5, full), Flags: flags()})
+		}
+	}
+	nRand := 1500
+	if thorough {
+		nRand = 30000
+	}
+	for it := 0; it < nRand; it++ {
+		n := 1 + rng.Intn(60)
+		if rng.Intn(4) == 0 {
+			n = 1 + rng.Intn(8)
+		}
+		emit(c18Case{Op: 3, G: c18RandGraph(rng, n), Flags: flags()})
+	}
+	for _, n := range c18Sizes(tier) {
+		for kind := 0; kind < 6; kind++ {
+			for relabel := 0; relabel < 3; relabel++ {
+				if n > 20000 && relabel == 1 && kind > 1 {
+					continue
+				}
+				emit(c18Case{Op: 3, G: c18Structured(rng, kind, n, relabel), Flags: flags()})
+			}
+		}
+	}
+}
+
 func c18Gen(tier string, rng *rand.Rand, emit func(interface{})) {
 	c18GenMarks(tier, rng, emit)
 	c18GenTrav(tier, rng, emit)
+	c18GenSCC(tier, rng, emit)
 }
 
 func init() { register(&Prop{ID: "C18", Num: 18, Gen: c18Gen, Run: c18Run}) }
